@@ -1,4 +1,4 @@
-import Verif.C07.Driver
+import Verif.C07.Driver2
 def main : IO UInt32 := do
-  Verif.Proto.runLines Verif.C07.step
+  Verif.Proto.runLines Verif.C07.step2
   return 0
